@@ -464,6 +464,10 @@ fn judge_forms_shift<A: Subject + AllPairs>(ctx: &mut Ctx, case: &Case, wl: &str
 // -------------------------------------------------------------------------------------------------
 
 pub fn judge(ctx: &mut Ctx, case: &Case, wl: &str) {
+    #[cfg(feature = "hooks")]
+    if case.kind == "prim" {
+        return crate::props::prim::judge(ctx, case, wl);
+    }
     let ty = case.spec("a").ty;
     with_type!(ty, A, {
         match case.kind.as_str() {
@@ -801,6 +805,8 @@ pub fn run(ctx: &mut Ctx) {
             w2_lattice(ctx, "binop", ops, tier, false);
             w3_random(ctx, "binop", ops, tier.pick(300, 150_000, 4_000_000));
             w_uint(ctx, "binop", ops, tier);
+            #[cfg(feature = "hooks")]
+            crate::props::prim::run_prims(ctx);
         }
         "C02" => {
             w1_small(ctx, "binop", ops, tier.pick(2, 4, 6), true);
